@@ -172,12 +172,14 @@ Proof.
 Qed.
 
 (* 5.5.1 *)
-Lemma enum_agree p s d : jd d -> Forall jd (s_enum s) ->
+(* the enumerated values are any JSON (null and arrays included, whatever the data class admits for the instance) *)
+Notation jde := (AgreementData.jd fin true true).
+Lemma enum_agree p s d : jd d -> Forall jde (s_enum s) ->
   (match common_validate N p s d with None => true | Some r => r_valid r end) = enum_ok N s d.
 Proof.
-  intros Hd He. unfold common_validate, enum_ok. destruct (s_enum s) as [|e0 es] eqn:E; [reflexivity|].
+  intros Hd0 He. pose proof (jd_mono fin allow_null allow_arr d Hd0) as Hd. unfold common_validate, enum_ok. destruct (s_enum s) as [|e0 es] eqn:E; [reflexivity|].
   assert (X : existsb (enum_match N d) (e0 :: es) = existsb (json_eq N d) (e0 :: es)).
-  { clear E. induction He as [|e t Hj Ht IH]; [reflexivity|]. cbn [existsb]. rewrite IH, (enum_match_json_eq d e Hd Hj). reflexivity. }
+  { clear E. induction He as [|e t Hj Ht IH]; [reflexivity|]. cbn [existsb]. rewrite IH, (@enum_match_json_eq fin true true N d e Hd Hj). reflexivity. }
   rewrite X. destruct (existsb (json_eq N d) (e0 :: es)); reflexivity.
 Qed.
 
@@ -1106,7 +1108,7 @@ Definition fmt_fits (s : schema) (d : goval) : Prop :=
 Definition local_clean0 (s : schema) : Prop :=
   (allow_null = true -> nullsafe s) /\
   s_ref s = None /\
-  s_nullable s = false /\ Forall jd (s_enum s) /\
+  s_nullable s = false /\ Forall jde (s_enum s) /\
   (s_pattern s = 0 \/ o_re_ok OR (s_pattern s) = true) /\
   array_clean s /\ object_clean s /\ comp_clean s /\ bounds_fin s.
 
